@@ -26,7 +26,7 @@ func init() {
 		Rule:          "core-language expressions (selector-chain grid over fixed documents; seeded document-directed random ASTs rendered in two spellings) evaluated by Search and Compile+Search and compared with the independent reference model; a case is non-trivial when the model decides it and its outcome is a non-null, non-empty value or an error; distinct by (expression text, document)",
 		MinNontrivial: 200,
 		Streams: []Stream{
-			{Name: "random", N: func(c *Ctx) int { return tierN(c, 30000, 600000) }, Run: c01Random},
+			{Name: "random", N: func(c *Ctx) int { return tierN(c, 30000, 3000000) }, Run: c01Random},
 			{Name: "grid", N: c01GridN, Run: c01Grid, Exhaustive: true},
 		},
 	})
